@@ -140,9 +140,24 @@ def r03_2(ctx):
                     f'type-test({name})', wf, 'no Integral type test (TypeError) ahead of the range test',
                     construct=f'{fn.qname}::type({name})')
     ctx.floor('R03.2', n, 11)
+    # the refusals, executed: just outside either end of the domain the check raises ValueError and nothing else (building the
+    # message of the exception is part of raising it), for a float or a string TypeError
+    from ..absint import AbsInt as _AI
+    for name, (fn, r) in sorted(doms.items()):
+        iv = codec.interval_of(r.accepted) if r is not None else None
+        if iv is None:
+            continue
+        ref = table[name]
+        for probe, want_exc in ((iv[0] - 1, 'ValueError'), (iv[1] + 1, 'ValueError'), (iv[1] + 1000, 'ValueError'), (1.5, 'TypeError'), ('x', 'TypeError')):
+            ai_ = _AI(ctx.f)
+            outs = ai_.explore(lambda: ai_.apply(ref, [probe], {}, None))
+            ok = bool(outs) and all(o_.kind == 'raise' and o_.exc == want_exc for o_ in outs)
+            ctx.require(ok, 'R03.2', f'refusal({name}={probe!r})', ctx.where(fn),
+                        f'the check of {name} ends {outs} for {probe!r}; a refused value must raise {want_exc}',
+                        construct=f'{fn.qname}::refusal({name})')
     fn_cd, item_fn, item_dom = codec.data_byte_domain(ctx)
     if item_dom is None:
-        ctx.fail('R03.2', 'domain(data)', ctx.where(fn_cd), 'check_data is not a plain loop applying the item check',
+        ctx.fail('R03.2', 'domain(data)', ctx.where(fn_cd), 'what check_data accepts cannot be established: it is not one item check applied to every item, and executed on lists (one value, one position at a time) it does not end the same way for the same items - or lets a bad item through',
                  construct=f'{fn_cd.qname}::shape')
     else:
         ctx.require(item_dom.accepted == IntSet.range(0, 127) and item_dom.type_test is not None,
